@@ -9,6 +9,10 @@ use crate::vm::state::State;
 pub(crate) struct LoopState {
     pub(crate) with_loop_var: bool,
 
+    // set once the loop produced its first item: the else block of a loop
+    // runs only if this never happened.
+    iterated: bool,
+
     // if we're popping the frame, do we want to jump somewhere?  The
     // first item is the target jump instruction, the second argument
     // tells us if we need to end capturing.
@@ -40,6 +44,7 @@ impl LoopState {
         };
         LoopState {
             with_loop_var,
+            iterated: false,
             current_recursion_jump,
             object: Arc::new(Loop {
                 idx: AtomicUsize::new(!0usize),
@@ -56,19 +61,19 @@ impl LoopState {
     }
 
     pub fn did_not_iterate(&self) -> bool {
-        self.object.idx.load(Ordering::Relaxed) == 0
+        !self.iterated
     }
 
     pub fn next(&mut self) -> Option<Value> {
         self.object.idx.fetch_add(1, Ordering::Relaxed);
         #[cfg(feature = "adjacent_loop_items")]
-        {
-            self.object.iter.lock().unwrap().next()
-        }
+        let rv = self.object.iter.lock().unwrap().next();
         #[cfg(not(feature = "adjacent_loop_items"))]
-        {
-            self.iter.next()
+        let rv = self.iter.next();
+        if rv.is_some() {
+            self.iterated = true;
         }
+        rv
     }
 }
 
